@@ -105,7 +105,8 @@ let stev = function
   | TSnap s ->
     L [A "snap"; slist (fun (k, v) -> L [sstr k; sdval v]) (sort_assoc s.s_data);
        slist (fun (k, v) -> L [sstr k; sstr v]) (sort_assoc s.s_params);
-       snat s.s_nerrors; sint (int_of_z s.s_status); sint (int_of_z s.s_length); sbool s.s_resp_own; sbool s.s_req_own]
+       snat s.s_nerrors; sint (int_of_z s.s_status); sint (int_of_z s.s_length); sbool s.s_resp_own; sbool s.s_req_own;
+       A "t"]    (* Context.Router() is the router that serves the request (constant in the model: contexts are per router) *)
 let spval = function PUser v -> L [A "p"; snat v] | PIndex -> L [A "p"; A "idx"]
 
 let options_m = str_of_ascii "OPTIONS"
